@@ -89,6 +89,7 @@ func (p *PauseController) Stop(message string) error {
 func (p *PauseController) Pause(failAfter time.Duration) error {
 	p.lock.Lock()
 	defer p.lock.Unlock()
+	defer func() { verifEvent("gate-set", p, int(p.State), p.pauseChannel) }()
 
 	if p.State != PauseStatePaused {
 		p.pauseChannel = make(chan bool)
@@ -118,6 +119,7 @@ func (p *PauseController) Wait() (PauseWaitAction, string) {
 	default:
 		select {
 		case <-pauseChannel:
+			verifEvent("gate-wake", p, true)
 			switch p.GetState() {
 			case PauseStateStopped:
 				return PauseWaitActionStopped, p.GetStopMessage()
@@ -125,6 +127,7 @@ func (p *PauseController) Wait() (PauseWaitAction, string) {
 				return PauseWaitActionProceed, ""
 			}
 		case <-failChannel:
+			verifEvent("gate-wake", p, false)
 			return PauseWaitActionTimedOut, ""
 		}
 	}
@@ -133,6 +136,7 @@ func (p *PauseController) Wait() (PauseWaitAction, string) {
 func (p *PauseController) getWaitState() (PauseState, string, chan bool, <-chan time.Time) {
 	p.lock.RLock()
 	defer p.lock.RUnlock()
+	verifEvent("gate-read", p, int(p.State), p.pauseChannel)
 
 	if p.State == PauseStatePaused {
 		return PauseStatePaused, "", p.pauseChannel, time.After(p.FailAfter)
@@ -144,6 +148,7 @@ func (p *PauseController) getWaitState() (PauseState, string, chan bool, <-chan 
 func (p *PauseController) setState(newState PauseState, message string) {
 	p.lock.Lock()
 	defer p.lock.Unlock()
+	defer func() { verifEvent("gate-set", p, int(p.State), p.pauseChannel) }()
 
 	if p.State != newState && p.State == PauseStatePaused {
 		close(p.pauseChannel)
